@@ -192,6 +192,21 @@ pub fn patho_input(shape: &str, n: usize) -> Vec<u8> {
             v.extend(b"</span>".repeat(n));
             v
         }
+        "stray-end-tags-of-a-closed-name" => {
+            // the name was open once, is closed again, and then only stray end tags of it follow under a deep stack
+            let mut v = b"<span></span><b></b>".to_vec();
+            v.extend(b"<div>".repeat(n));
+            v.extend(b"</span></b>".repeat(n));
+            v
+        }
+        "reopened-names-deep" => {
+            let mut v = Vec::new();
+            for i in 0..n {
+                v.extend(if i % 2 == 0 { &b"<div><p></p>"[..] } else { &b"<span><i></i>"[..] });
+            }
+            v.extend(b"</p></i>".repeat(n));
+            v
+        }
         "lt-soup" => b"<".repeat(n * 4),
         "foreign-deep" => {
             let mut v = b"<svg>".to_vec();
@@ -207,7 +222,7 @@ pub fn patho_input(shape: &str, n: usize) -> Vec<u8> {
     }
 }
 
-pub const SHAPES: &[&str] = &["deep-nesting", "deep-nesting-closed", "huge-text", "huge-nonascii-text", "huge-comment", "huge-attr-value", "many-attributes", "many-duplicate-attributes", "many-siblings", "unclosed-script-lt", "many-stray-end-tags", "lt-soup", "foreign-deep", "doctype-junk"];
+pub const SHAPES: &[&str] = &["deep-nesting", "deep-nesting-closed", "huge-text", "huge-nonascii-text", "huge-comment", "huge-attr-value", "many-attributes", "many-duplicate-attributes", "many-siblings", "unclosed-script-lt", "many-stray-end-tags", "stray-end-tags-of-a-closed-name", "reopened-names-deep", "lt-soup", "foreign-deep", "doctype-junk"];
 
 fn thread_cpu() -> f64 {
     let mut ts = libc::timespec { tv_sec: 0, tv_nsec: 0 };
@@ -303,6 +318,7 @@ pub fn worker_main(seed: u64, shard: u64, nbatches: u64, only_batch: Option<u64>
     let mut evaluations = 0u64;
     let mut nontrivial: Vec<u64> = vec![];
     let mut counters: std::collections::BTreeMap<String, u64> = Default::default();
+    let mut samples: Vec<Value> = vec![];
     for b in batches {
         {
             let mut o = out.lock();
@@ -326,6 +342,12 @@ pub fn worker_main(seed: u64, shard: u64, nbatches: u64, only_batch: Option<u64>
                         _ => ("other", None),
                     };
                     *counters.entry(key.to_string()).or_insert(0) += 1;
+                    if samples.len() < 2 && h.is_some() {
+                        samples.push(match &c {
+                            Case15::Rewrite(case) => case.to_value(),
+                            other => serde_json::to_value(other).unwrap(),
+                        });
+                    }
                     if let Some(h) = h {
                         if nontrivial.len() < 200_000 {
                             nontrivial.push(h);
@@ -344,7 +366,7 @@ pub fn worker_main(seed: u64, shard: u64, nbatches: u64, only_batch: Option<u64>
         }
     }
     let mut o = out.lock();
-    let _ = writeln!(o, "{}", json!({"done": true, "evaluations": evaluations, "nontrivial": nontrivial, "counters": counters}));
+    let _ = writeln!(o, "{}", json!({"done": true, "evaluations": evaluations, "nontrivial": nontrivial, "counters": counters, "samples": samples}));
     let _ = o.flush();
     0
 }
@@ -441,6 +463,9 @@ impl Prop for C15 {
                                 ctx.nontrivial(h);
                             }
                         }
+                        for sm in v["samples"].as_array().cloned().unwrap_or_default() {
+                            ctx.sample(|| sm);
+                        }
                         if let Some(m) = v["counters"].as_object() {
                             for (k, n) in m {
                                 ctx.add(k, n.as_u64().unwrap_or(0));
@@ -476,7 +501,7 @@ impl Prop for C15 {
             return;
         }
         // --- pathological sizes + linearity (each measurement in its own process), shapes distributed over shards
-        let base = ctx.tier.pick(2_000usize, 12_000usize);
+        let base = ctx.tier.pick(3_000usize, 12_000usize);
         for (si, shape) in SHAPES.iter().enumerate() {
             if si % ctx.nshards != ctx.shard {
                 continue;
